@@ -94,6 +94,44 @@ fn driver_run(op: &Value) -> Result<Option<Value>, String> {
     Ok(Some(json!({"log": logv, "results": results})))
 }
 
-fn async_vs_sync(_host: &mut Host, _op: &Value) -> Result<Option<Value>, String> {
-    Err("a.run not built yet".to_string())
+/// ["a.run", slot, instructions, slice_cycles, [[addr,len]...]]
+/// Drives the machine in `slot` through AsyncRuntimeRunner (CPU as a task of the virtual-time
+/// scheduler) and returns {"stats":[instr,cycles]|null, "err":..., "obs": machine observation}.
+fn async_vs_sync(host: &mut Host, op: &Value) -> Result<Option<Value>, String> {
+    use sc62015_core::AsyncRuntimeRunner;
+    let slot = u(op, 1)?;
+    let n = u(op, 2)? as usize;
+    let slice = u(op, 3)?;
+    let mut watch: Vec<(u32, u32)> = Vec::new();
+    if let Some(arr) = op.get(4).and_then(|x| x.as_array()) {
+        for item in arr {
+            if let (Some(a), Some(l)) = (
+                item.get(0).and_then(|x| x.as_u64()),
+                item.get(1).and_then(|x| x.as_u64()),
+            ) {
+                watch.push((a as u32, l as u32));
+            }
+        }
+    }
+    let boxed = host
+        .machines
+        .remove(&slot)
+        .ok_or_else(|| format!("no machine in slot {slot}"))?;
+    let rc = Rc::new(RefCell::new(*boxed));
+    let (stats, err) = {
+        let mut runner = AsyncRuntimeRunner::new(rc.clone());
+        if slice > 0 {
+            runner = runner.with_slice_cycles(slice);
+        }
+        match runner.run_instructions(n) {
+            Ok(st) => (json!([st.instructions_executed, st.cycles_executed]), Value::Null),
+            Err(e) => (Value::Null, json!(format!("{e}"))),
+        }
+    };
+    let rt = Rc::try_unwrap(rc)
+        .map_err(|_| "async runner leaked a runtime reference".to_string())?
+        .into_inner();
+    let obs = super::machine_obs(&rt, &watch);
+    host.machines.insert(slot, Box::new(rt));
+    Ok(Some(json!({"stats": stats, "err": err, "obs": obs})))
 }
